@@ -243,6 +243,7 @@ var simStart = time.Date(2025, 6, 1, 0, 0, 0, 0, time.UTC)
 func NewWorld(t *sim.Tape, cfg *Config) (*World, error) {
 	w := &World{Cfg: cfg, T: t, Stats: newStats()}
 	w.Seams = sim.NewSeams(t.Seed, simStart)
+	w.Seams.HTTP.Ties = cfg.Gen.OrderSensitive
 	w.Seams.Install()
 	w.Now = simStart
 	w.Sc = gen.NewScenario(t, cfg.Gen)
